@@ -345,7 +345,7 @@ func (c *checker) codeToSpec(ps []*position, strs func(p *position) []string) {
 		p := o.pos
 		key := p.name + "|" + o.tok
 		if prev, ok := c.uniq[key]; ok && prev != o.it.b {
-			c.rep.Fail(mbt.Failure{Signature: "C11|" + p.enc + "|two names print alike|" + shape(o.it.b),
+			c.rep.Fail(mbt.Failure{Signature: "C11|" + printerSite(p, o.it.b, o.tok) + "|two names print alike|" + shape(o.it.b),
 				What: fmt.Sprintf("position %s: %q and %q are both printed as %s", p.name, prev, o.it.b, o.tok), Case: c.kase("T", p, o.it.b)})
 		}
 		c.uniq[key] = o.it.b
@@ -456,7 +456,7 @@ func (c *checker) codeToSpec(ps []*position, strs func(p *position) []string) {
 			} else {
 				what += "llvm-as: " + mbt.Truncate(firstLine(o.llvmDiag), 160)
 			}
-			c.rep.Fail(mbt.Failure{Signature: "C11|" + p.enc + "|" + o.specBad + "|" + shape(b), What: what, Case: c.kase("T", p, b)})
+			c.rep.Fail(mbt.Failure{Signature: "C11|" + printerSite(p, b, o.tok) + "|" + o.specBad + "|" + shape(b), What: what, Case: c.kase("T", p, b)})
 		case o.specBad != "":
 			c.discard("position %s, %q printed as %s: the spec says %s but LLVM reads the bytes", p.name, b, o.tok, o.specBad)
 		default:
@@ -475,6 +475,33 @@ func (c *checker) codeToSpec(ps []*position, strs func(p *position) []string) {
 		}
 		c.parseBack("T", o.pos, o.it, o.text, o.tok)
 	}
+}
+
+// printerSite names the culprit of a wrong printed token: the encoder of internal/enc if it
+// returns this very token for the bytes, otherwise the printing code of the position itself.
+func printerSite(p *position, b, tok string) string {
+	var want string
+	if _, pan := mbt.Guard(func() {
+		switch p.enc {
+		case "enc.GlobalName":
+			want = verifshim.GlobalName(b)
+		case "enc.LocalName":
+			want = verifshim.LocalName(b)
+		case "enc.LabelName":
+			want = verifshim.LabelName(b)
+		case "enc.TypeName":
+			want = verifshim.TypeName(b)
+		case "enc.ComdatName":
+			want = verifshim.ComdatName(b)
+		case "enc.MetadataName":
+			want = verifshim.MetadataName(b)
+		default:
+			want = p.strip + verifshim.Quote([]byte(b))
+		}
+	}); pan || want != tok {
+		return "printer of position " + p.name
+	}
+	return p.enc
 }
 
 func firstLine(s string) string {
@@ -1036,6 +1063,14 @@ func Run(tier, replay string) {
 	if tier == "quick" {
 		long = append(append(long, uniq...), stringsOfLen(classReps[:len(classReps)-1], 3)...)
 	}
+	// thorough: the light positions (they share their printer with fully enumerated ones) get the
+	// strings of length <= 2, the extras and the random strings
+	var medium []string
+	for _, b := range uniq {
+		if len(b) <= 2 || !seenExh[b] {
+			medium = append(medium, b)
+		}
+	}
 	c.codeToSpec(ps, func(p *position) []string {
 		if tier == "quick" {
 			if p.single || p.light {
@@ -1044,6 +1079,8 @@ func Run(tier, replay string) {
 			if p.name == "global" || p.name == "param" || p.name == "label" {
 				return long
 			}
+		} else if p.light {
+			return medium
 		}
 		return uniq
 	})
@@ -1056,6 +1093,13 @@ func Run(tier, replay string) {
 			cases = nil
 			for _, g := range byKind[p.kind] {
 				if len(g.b) <= 1 || !seenExh[g.b] {
+					cases = append(cases, g)
+				}
+			}
+		} else if p.light {
+			cases = nil
+			for _, g := range byKind[p.kind] {
+				if len(g.b) <= 2 || !seenExh[g.b] {
 					cases = append(cases, g)
 				}
 			}
